@@ -145,10 +145,36 @@ def r17b(chk, rid='R17.b'):
     dm = ast.unparse(m.get('MediaList.deleteMedium'))
     chk.ob(rid, ML, 'MediaList.deleteMedium', 'an absent media type is rejected with NotFoundErr', 'NotFoundErr' in dm and 'else:' in dm, '', shape=True)
     chk.ob(rid, ML, 'MediaList.deleteMedium', 'types are compared in normalised form', 'normalize(mq.value.mediaType) == oldMedium' in dm and 'oldMedium = normalize(oldMedium)' in dm, '', shape=True)
+    _eval_medialist_writer(chk, rid)
+
+
+def _eval_medialist_writer(chk, rid):
+    """CSSSerializer.do_stylesheets_medialist evaluated on its syntax tree: Out is modelled as the
+    list of (value, type) pairs appended to it."""
+    from sa.absint import Evaluator, Raised, Record
+
     sm = chk.repo.mod(SER)
-    s = ast.unparse(sm.get('CSSSerializer.do_stylesheets_medialist'))
-    chk.ob(rid, SER, 'CSSSerializer.do_stylesheets_medialist', "the empty list serialises as 'all'", "if len(medialist) == 0:\n        return 'all'" in s, '')
-    chk.ob(rid, SER, 'CSSSerializer.do_stylesheets_medialist', 'queries are separated by commas, in list order', "out.append(',', 'CHAR')" in s and 'for item in seq' in s, '')
+    fn = sm.get('CSSSerializer.do_stylesheets_medialist')
+
+    class ML(Record):
+        def __len__(self):
+            return sum(1 for it in self.seq if it.type == 'MediaQuery')
+
+    def item(t, v):
+        return Record(type=t, value=v)
+
+    cases = {
+        'empty list': ([], 'all'),
+        'comment only': ([item('COMMENT', 'c')], 'all'),
+        'one query': ([item('MediaQuery', 'tv')], [('tv', 'MediaQuery')]),
+        'three queries and comments': ([item('COMMENT', 'c0'), item('MediaQuery', 'tv'), item('COMMENT', 'c1'), item('MediaQuery', 'print'), item('MediaQuery', 'x')],
+                                       [('c0', 'COMMENT'), ('tv', 'MediaQuery'), ('c1', 'COMMENT'), (',', 'CHAR'), ('print', 'MediaQuery'), (',', 'CHAR'), ('x', 'MediaQuery')]),
+    }
+    for label, (seq, want) in cases.items():
+        parts = []
+        out = Record(append=lambda val, type_=None, *a, **k: parts.append((val, type_)), value=lambda: list(parts))
+        got = Evaluator(fn, intrinsics={'Out': lambda ser: out}, module=sm, cls='CSSSerializer').run(self=Record(), medialist=ML(seq=seq))
+        chk.ob(rid, SER, 'CSSSerializer.do_stylesheets_medialist', f"{label}: the empty list is written 'all'; otherwise every item in list order with one comma between consecutive queries (by evaluation)", got == want, f'{got!r}, prescribed {want!r}')
 
 
 def r17c(chk, rid='R17.c'):
